@@ -278,6 +278,19 @@ impl SwarmDriver {
         self.get_replicate_candidates(target)
     }
 
+    /// The quote retained for a peer by the quote-history check, and (recorded issues, considered bad).
+    pub fn verif_quote_history(
+        &self,
+        peer: &PeerId,
+    ) -> (Option<ant_evm::PaymentQuote>, usize, bool) {
+        let (issues, bad) = self
+            .bad_nodes
+            .get(peer)
+            .map(|(v, b)| (v.len(), *b))
+            .unwrap_or((0, false));
+        (self.quotes_history.get(peer).cloned(), issues, bad)
+    }
+
     /// Queue and in-flight set of the node's replication fetcher: (key, type, holder)
     #[allow(clippy::type_complexity)]
     pub fn verif_fetcher_view(
